@@ -26,7 +26,7 @@ Fixpoint no_run_missing (c : code) : Prop :=
   | Ret _ | Raise _ | Interrupt => True
   | Inp cf body _ _ k => i_run_missing cf = false /\ no_run_missing body /\ no_run_missing k
   | Out _ body _ _ k => no_run_missing body /\ no_run_missing k
-  | Try c1 h => no_run_missing c1 /\ no_run_missing h
+  | Try c1 h | Spawn c1 h => no_run_missing c1 /\ no_run_missing h
   | Discard k | Force k | Enable _ k | PlayData _ k | RecordData _ _ k => no_run_missing k
   end.
 
@@ -53,7 +53,7 @@ Section Play.
   (** C02: replay writes nothing into any recording and never aborts anything *)
   Theorem play_exec_quiet : forall c env s, qres (play_exec R c env s).
   Proof.
-    induction c as [e|ty| |cf body IHb args kwargs k IHk|cf body IHb args kwargs k IHk|c1 IH1 h IHh
+    induction c as [e|ty| |cf body IHb args kwargs k IHk|cf body IHb args kwargs k IHk|c1 IH1 h IHh|c1 IHs1 k IHsk
                     |k IHk|k IHk|b k IHk|key e k IHk|key k IHk]; intros env s; cbn [play_exec]; try apply quiet_nil; auto.
     - pose proof (play_in_call_quiet cf (map (eval env) args) (eval_kw env kwargs)
                     (play_exec R body (body_env (map (eval env) args) (eval_kw env kwargs))) s (fun s0 => IHb _ s0)) as H.
@@ -67,6 +67,8 @@ Section Play.
     - specialize (IH1 env s). unfold bind_exn, qres in *. destruct (play_exec R c1 env s) as [[o s1] l1].
       destruct o as [v|e|]; auto. specialize (IHh env s1). destruct (play_exec R h env s1) as [[o2 s2] l2].
       apply quiet_app; auto.
+    - specialize (IHs1 env s). unfold qres in IHs1. destruct (play_exec R c1 env s) as [[o1 s1] l1].
+      specialize (IHsk env s1). unfold prepend, qres in *. destruct (play_exec R k env s1) as [[o2 s2] l2]. apply quiet_app; auto.
     - destruct (rlookup key R) as [d|]; [|apply quiet_nil]. destruct (datum_value d); [apply IHk|apply quiet_nil].
   Qed.
 
@@ -75,7 +77,7 @@ Section Play.
 
   Theorem play_exec_no_bodies : forall c env s, no_run_missing c -> nobody (play_exec R c env s).
   Proof.
-    induction c as [e|ty| |cf body IHb args kwargs k IHk|cf body IHb args kwargs k IHk|c1 IH1 h IHh
+    induction c as [e|ty| |cf body IHb args kwargs k IHk|cf body IHb args kwargs k IHk|c1 IH1 h IHh|c1 IHs1 k IHsk
                     |k IHk|k IHk|b k IHk|key e k IHk|key k IHk]; intros env s N; cbn [play_exec no_run_missing] in *;
       try reflexivity; auto.
     - destruct N as (Nr & Nb & Nk).
@@ -96,6 +98,9 @@ Section Play.
     - destruct N as (N1 & Nh). specialize (IH1 env s N1). unfold bind_exn, nobody in *.
       destruct (play_exec R c1 env s) as [[o s1] l1]. destruct o as [v|e|]; auto.
       specialize (IHh env s1 Nh). destruct (play_exec R h env s1) as [[o2 s2] l2]. rewrite bodies_app, IH1, IHh. reflexivity.
+    - destruct N as (N1 & Nk). specialize (IHs1 env s N1). unfold nobody in IHs1. destruct (play_exec R c1 env s) as [[o1 s1] l1].
+      specialize (IHsk env s1 Nk). unfold prepend, nobody in *. destruct (play_exec R k env s1) as [[o2 s2] l2].
+      rewrite bodies_app, IHs1, IHsk. reflexivity.
     - destruct (rlookup key R) as [d|]; [|reflexivity]. destruct (datum_value d); [apply IHk; auto|reflexivity].
   Qed.
 
